@@ -3,6 +3,7 @@ from __future__ import annotations
 
 import datetime as _d
 import itertools
+import logging
 import os
 import sqlite3
 
@@ -183,7 +184,30 @@ def run_history(hist, batch):
                 pass
 
 
+class _Sink(logging.Handler):
+    """What a verbose run (rdump -vv) does with log records: every message is formatted."""
+
+    def emit(self, record):
+        record.getMessage()
+
+
 def run_case(case):
+    if not case.get("debug"):
+        return _run_case(case)
+    lg = logging.getLogger("flow.record")
+    old, sink = lg.level, _Sink()
+    lg.setLevel(logging.DEBUG)
+    lg.addHandler(sink)
+    old_prop, lg.propagate = lg.propagate, False
+    try:
+        return _run_case(case)
+    finally:
+        lg.setLevel(old)
+        lg.removeHandler(sink)
+        lg.propagate = old_prop
+
+
+def _run_case(case):
     if case["kind"] == "hist":
         return run_hist_case(case)
     if case["kind"] == "value":
@@ -407,6 +431,18 @@ def cases(tier, seed):
     for v in ["2**63-1", "-2**63", "2**63", "-2**63-1", "0.0", "-0.0", "1e308", "5e-324", "b''", "b'\\x00\\x01'", "'a\\x00b'", "''"]:
         t = "varint" if "**" in v else "float" if ("." in v or "e" in v) and not v.startswith(("b", "'")) else "bytes" if v.startswith("b") else "string"
         yield {"kind": "value", "t": t, "record": rs("sq/v", [[t, "x"]], [v])}
+    # long values, and everything once more with debug logging switched on (rdump -vv): logging must not touch what is stored
+    for t, v in (("string", "S('x', 129)"), ("string", "S('\\xe9', 4000)"), ("bytes", "S(b'\\xab', 129)"), ("bytes", "S(b'\\x00', 70000)"), ("uri", "S('u', 300)"), ("path", "S('p', 300)"),
+                 ("string[]", "[S('x', 200)]")):
+        for dbg in (False, True):
+            yield {"kind": "value", "t": t, "record": rs("sq/v", [[t, "x"]], [v]), "debug": dbg}
+    for t in FAITHFUL:
+        for v in alphabet(t, seed)[:8]:
+            yield {"kind": "value", "t": t, "record": rs("sq/v", [[t, "x"]], [v]), "debug": True}
+    for k in range(1, 4):
+        for hist in itertools.product(EVENTS, repeat=k):
+            if "close" not in hist[:-1]:
+                yield {"kind": "hist", "hist": list(hist), "debug": True}
     for tn in NAMES:
         for fn in NAMES:
             if "/" in fn:
